@@ -26,6 +26,26 @@ type Injector struct {
 	FailAt int // 1-based; 0 = record only
 	Sites  []string
 	Fired  string
+	// cancel functions of the contexts the write transactions were begun with (see DB.BeginTx)
+	cancels map[*sql.Tx]context.CancelFunc
+}
+
+// (keyed by the *sql.Tx: outer database wrappers such as the GC's re-wrap it in their own controller)
+func (i *Injector) register(tc *database.TxController, cancel context.CancelFunc) {
+	i.mu.Lock()
+	defer i.mu.Unlock()
+	if i.cancels == nil {
+		i.cancels = map[*sql.Tx]context.CancelFunc{}
+	}
+	i.cancels[tc.SqlTx()] = cancel
+}
+
+func (i *Injector) takeCancel(tc *database.TxController) context.CancelFunc {
+	i.mu.Lock()
+	defer i.mu.Unlock()
+	c := i.cancels[tc.SqlTx()]
+	delete(i.cancels, tc.SqlTx())
+	return c
 }
 
 // Arm starts counting sites (and failing site failAt).
@@ -61,8 +81,29 @@ func (i *Injector) Site(name string) error {
 }
 
 // InstallHooks routes verifhook.Fault("tx.commit") to the injector. Returns an uninstall func.
+//
+// A second commit fault makes the REAL (*sql.Tx).Commit fail, so that the error takes the code
+// path of a genuine commit failure and not the branch of the injected one: the context the
+// transaction was begun with is cancelled at the "tx.commit.before" point (site "tx.commit.real").
 func (i *Injector) InstallHooks() func() {
-	verifhook.Install(nil, func(site string, args ...any) error {
+	verifhook.Install(func(site string, args ...any) {
+		tc, ok := firstTx(args)
+		if !ok || tc.ReadOnly() {
+			return
+		}
+		switch site {
+		case "tx.commit.before":
+			if err := i.Site("tx.commit.real"); err != nil {
+				if cancel := i.takeCancel(tc); cancel != nil {
+					cancel()
+				}
+			}
+		case "tx.finalized":
+			if cancel := i.takeCancel(tc); cancel != nil {
+				cancel()
+			}
+		}
+	}, func(site string, args ...any) error {
 		if tc, ok := firstTx(args); ok && tc.ReadOnly() {
 			return nil // read-only transactions change nothing; failing their commit is not a mutation fault
 		}
@@ -146,11 +187,23 @@ func (d *DB) BeginTx(ctx context.Context, opts *sql.TxOptions) (*database.TxCont
 			return nil, err
 		}
 	}
-	tx, err := d.Inner.BeginTx(ctx, opts)
+	if readOnly || d.Inj == nil {
+		tx, err := d.Inner.BeginTx(ctx, opts)
+		if err != nil {
+			return nil, err
+		}
+		return database.NewTxController(tx.SqlTx(), d, readOnly), nil
+	}
+	// write transaction: begun with a cancellable context, so that the injector can make the real commit fail
+	cctx, cancel := context.WithCancel(ctx)
+	tx, err := d.Inner.BeginTx(cctx, opts)
 	if err != nil {
+		cancel()
 		return nil, err
 	}
-	return database.NewTxController(tx.SqlTx(), d, readOnly), nil
+	tc := database.NewTxController(tx.SqlTx(), d, readOnly)
+	d.Inj.register(tc, cancel)
+	return tc, nil
 }
 func (d *DB) PingContext(ctx context.Context) error  { return d.Inner.PingContext(ctx) }
 func (d *DB) Close() error                           { return d.Inner.Close() }
